@@ -14,7 +14,8 @@ CONSTANTS UnitsFile, Devs
 VARIABLES use, ty, lst       \* lst = <<0>> while unset
 vars == <<use, ty, lst>>
 
-Atoms == << JStr(<<"a">>), JStr(<<"b", "e2", "pc", "sp", "a">>), JNum(4), JNum(8), JNum(6), JBool(TRUE), JBool(FALSE), JNull >>
+\* the first string is "1": it prints like the number 1 (JSON equality still tells them apart)
+Atoms == << JStr(<<"d1">>), JStr(<<"b", "e2", "pc", "sp", "a">>), JNum(4), JNum(8), JNum(6), JBool(TRUE), JBool(FALSE), JNull >>
 NonMembers == << JStr(<<"a", "b">>), JNum(12), JArr(<<>>), JObj(<<>>) >>
 Values == Atoms \o NonMembers
 
